@@ -814,6 +814,21 @@ def h_sort(a, dim=-1, descending=False, stable=False):
     return ValuesIndices((wrap(r, _dtype_of(a)), _Indices()))
 
 
+@handler("kthvalue")
+def h_kthvalue(a, k, dim=-1, keepdim=False):
+    k = int(k)
+    p = payload(a)
+    n = p.shape[dim] if p.ndim else 1
+    if k < 1 or k > n:
+        raise RuntimeError("kthvalue(): selected number k out of range for dimension")
+    r = _along(a, dim, lambda xs: [_sorted_terms(xs)[k - 1]], 1)
+    if not keepdim and p.ndim:
+        r = np.squeeze(r, axis=dim % p.ndim)
+    elif not p.ndim:
+        r = r.reshape(())
+    return ValuesIndices((wrap(r, _dtype_of(a)), _Indices()))
+
+
 @handler("quantile")
 def h_quantile(a, q, dim=None, keepdim=False, interpolation="linear"):
     if interpolation != "linear":
